@@ -7,7 +7,7 @@
    (oracle c04_partial_holds: equal data without errors, a sub-tree of it with errors). *)
 From Coq Require Import String List Bool ZArith.
 From GW Require Import Base.Res Base.GoStr Base.Json Gw.Points Gw.Plan Gw.Scrub Proofs.CodecProofs Proofs.PointsProofs Proofs.FindProofs Proofs.ScrubProofs
-     Gql.Syntax Gql.Spec Proofs.StitchSound Proofs.JoinSound Proofs.StepJoin Proofs.StepScrub.
+     Gql.Syntax Gql.Spec Proofs.StitchSound Proofs.JoinSound Proofs.StepJoin Proofs.StepScrub Gw.Locate Proofs.PlanTotal.
 Import ListNotations.
 Open Scope string_scope.
 Open Scope list_scope.
@@ -32,6 +32,18 @@ Theorem C04_every_step_point_is_scrubbed : forall fuel client root ps,
     descend (ipoint_of c) client = Ok target -> natural_id target = false -> In (ipoint_of c) ps.
 Proof. exact scrub_fields_complete. Qed.
 Print Assumptions C04_every_step_point_is_scrubbed.
+
+(* Where the planner injects the join id (Gw/Plan.v, extractSelection): the synthesised field
+   (`id` without an alias) is added to the selection a step sends for an insertion point exactly
+   when a step is queued for that point -- no injected id without a step that joins on it, no
+   queued step without the id.  With the two theorems above: every injected id has its scrub path
+   unless the client asked for `id` there.  (lnamed: every field the client wrote has an alias;
+   gqlparser sets it to the name.) *)
+Theorem C04_join_id_is_injected_exactly_where_a_step_is_queued : forall prios urls ft fuel ptype ploc ip w sels kept pls,
+  extract prios urls ft fuel ptype ploc ip w sels = Ok (kept, pls) -> lnamed sels ->
+  (lhas_id kept = true <-> exists q, In q pls /\ pl_ipoint q = ip).
+Proof. exact id_injected_iff_step_queued. Qed.
+Print Assumptions C04_join_id_is_injected_exactly_where_a_step_is_queued.
 
 (* scrubbing a point removes exactly the named field of the object there: it is gone, and every
    other key of that object keeps its value *)
